@@ -212,3 +212,65 @@ pub fn run_miri(verif: &str, calls_text: &str, threads: usize, seeds: &str, time
     }
     mo
 }
+
+/// Shrink the Miri workload (fewer calls, fewer threads) while some Miri seed still reports the same kind of
+/// finding. Every candidate is a fresh `cargo miri run` over a few seeds; budgeted.
+pub fn minimise_miri(verif: &str, first: &MiriOutcome, budget: Duration) -> (String, usize, Vec<u64>, String, usize) {
+    let t0 = Instant::now();
+    let want_race = first.data_race;
+    let mut lines: Vec<String> = first.calls_text.lines().map(|l| l.to_string()).collect();
+    let mut threads = first.threads;
+    let mut failing = first.failing_seeds.clone();
+    let mut excerpt = first.excerpt.clone();
+    let mut tried = 0usize;
+    let seeds = "-Zmiri-many-seeds=0..6 -Zmiri-many-seeds-keep-going";
+    let same = |m: &MiriOutcome| m.ran && ((want_race && m.data_race) || (!want_race && m.mismatch));
+    let mut attempt = |cand: &Vec<String>, th: usize, tried: &mut usize| -> Option<MiriOutcome> {
+        *tried += 1;
+        let text = cand.join("\n") + "\n";
+        let m = run_miri(verif, &text, th, seeds, Duration::from_secs(120));
+        if same(&m) {
+            Some(m)
+        } else {
+            None
+        }
+    };
+    if threads > 2 && t0.elapsed() < budget {
+        if let Some(m) = attempt(&lines, 2, &mut tried) {
+            threads = 2;
+            failing = m.failing_seeds.clone();
+            excerpt = m.excerpt.clone();
+        }
+    }
+    let mut chunk = (lines.len() + 1) / 2;
+    while chunk >= 1 && lines.len() > 1 && t0.elapsed() < budget {
+        let mut progressed = false;
+        let mut a = 0;
+        while a < lines.len() && lines.len() > 1 && t0.elapsed() < budget {
+            let b = (a + chunk).min(lines.len());
+            let mut cand = lines.clone();
+            cand.drain(a..b);
+            if cand.is_empty() {
+                a = b;
+                continue;
+            }
+            if let Some(m) = attempt(&cand, threads, &mut tried) {
+                lines = cand;
+                failing = m.failing_seeds.clone();
+                excerpt = m.excerpt.clone();
+                progressed = true;
+            } else {
+                a = b;
+            }
+        }
+        if !progressed {
+            if chunk == 1 {
+                break;
+            }
+            chunk = (chunk + 1) / 2;
+        } else {
+            chunk = chunk.min(lines.len().max(1));
+        }
+    }
+    (lines.join("\n") + "\n", threads, failing, excerpt, tried)
+}
